@@ -840,14 +840,17 @@ impl Ty {
                 8 => Some(i8::MAX as u64),
                 16 => Some(i16::MAX as u64),
                 32 => Some(i32::MAX as u64),
-                64 | 128 => Some(i64::MAX as u64),
+                // isize (a bit width of `u8::MAX`) is treated as 64 bits wide
+                64 | 255 => Some(i64::MAX as u64),
+                // int literals are stored in a u64, so any of them fits an i128
+                128 => Some(u64::MAX),
                 _ => None,
             },
             Ty::UInt(bit_width) => match bit_width {
                 8 => Some(u8::MAX as u64),
                 16 => Some(u16::MAX as u64),
                 32 => Some(u32::MAX as u64),
-                64 | 128 => Some(u64::MAX),
+                64 | 128 | 255 => Some(u64::MAX),
                 _ => None,
             },
             Ty::Distinct { sub_ty: ty, .. } => ty.get_max_int_size(),
